@@ -3,7 +3,10 @@ package rules
 import (
 	"fmt"
 	"go/ast"
+	"go/token"
 	"go/types"
+
+	"golang.org/x/tools/go/cfg"
 
 	"verif/checker/internal/core"
 )
@@ -284,4 +287,312 @@ func locksFirst(info *types.Info, body *ast.BlockStmt) bool {
 	}
 	a, b := identObj(info, s1.X), identObj(info, s2.X)
 	return a != nil && a == b
+}
+
+// T4: every file-system event re-arms the regeneration. In the watcher loop of internal/cmd (the
+// function with a `select` that receives from (*fsnotify.Watcher).Events), every path from the
+// receive back to the select passes a call that schedules or performs a regeneration:
+// (*time.Timer).Reset on a timer created by time.AfterFunc(_, f) with f reaching generateImpl,
+// time.AfterFunc with such an f, or a direct call of a function reaching generateImpl. A path
+// that returns (channel closed) is fine. An event that is swallowed leaves stale output on disk.
+func ruleWatchEveryEventSchedules(c *core.Ctx) {
+	const rule = "T4"
+	c.Rule(rule, "in the watcher loop every received fsnotify event reaches, before the loop waits again, a call that re-arms the debounce timer of the regeneration (or regenerates directly); the timer's function reaches generateImpl", 2)
+	gi, _, _ := c.Func("internal/cmd", "generateImpl")
+	if gi == nil {
+		c.Undecided(rule, "anchor/internal/cmd.generateImpl", 0, "anchor function not found")
+		return
+	}
+	found := 0
+	for _, d := range c.AllDecls() {
+		p := c.DeclPkg(d)
+		if p.PkgPath != core.Mod+"/internal/cmd" || d.Body == nil {
+			continue
+		}
+		info := p.TypesInfo
+		// closures bound to locals, to resolve `regenerate`
+		lits := map[types.Object]*ast.FuncLit{}
+		ast.Inspect(d.Body, func(n ast.Node) bool {
+			if as, ok := n.(*ast.AssignStmt); ok && len(as.Lhs) == 1 && len(as.Rhs) == 1 {
+				if fl, ok := as.Rhs[0].(*ast.FuncLit); ok {
+					if o := identObj(info, as.Lhs[0]); o != nil {
+						lits[o] = fl
+					}
+				}
+			}
+			return true
+		})
+		var reaches func(e ast.Expr, depth int) bool
+		bodyReaches := func(body ast.Node, depth int) bool {
+			hit := false
+			ast.Inspect(body, func(n ast.Node) bool {
+				if ce, ok := n.(*ast.CallExpr); ok && !hit {
+					if reaches(ce.Fun, depth+1) {
+						hit = true
+					}
+				}
+				return !hit
+			})
+			return hit
+		}
+		reaches = func(e ast.Expr, depth int) bool {
+			if depth > 4 {
+				return false
+			}
+			switch a := ast.Unparen(e).(type) {
+			case *ast.FuncLit:
+				return bodyReaches(a.Body, depth)
+			case *ast.Ident:
+				if fl := lits[identObj(info, a)]; fl != nil {
+					return bodyReaches(fl.Body, depth)
+				}
+			}
+			var f *types.Func
+			switch a := ast.Unparen(e).(type) {
+			case *ast.Ident:
+				f, _ = info.Uses[a].(*types.Func)
+			case *ast.SelectorExpr:
+				f, _ = info.Uses[a.Sel].(*types.Func)
+			}
+			if f == nil || !core.InModule(f) {
+				return false
+			}
+			return f.Origin() == gi || c.PathTo(f.Origin(), func(g *types.Func) bool { return g == gi }, nil) != nil
+		}
+		// timers created by time.AfterFunc(_, f): object -> f reaches generateImpl
+		timerRuns := map[types.Object]bool{}
+		ast.Inspect(d.Body, func(n ast.Node) bool {
+			if as, ok := n.(*ast.AssignStmt); ok && len(as.Lhs) == 1 && len(as.Rhs) == 1 {
+				if ce, ok := ast.Unparen(as.Rhs[0]).(*ast.CallExpr); ok && len(ce.Args) == 2 {
+					if f := core.Callee(info, ce); f != nil && core.FullName(f) == "time.AfterFunc" {
+						if o := identObj(info, as.Lhs[0]); o != nil {
+							timerRuns[o] = timerRuns[o] || reaches(ce.Args[1], 0)
+						}
+					}
+				}
+			}
+			return true
+		})
+		var schedules func(n ast.Node) bool
+		depthS := 0
+		schedules = func(n ast.Node) bool {
+			hit := false
+			ast.Inspect(n, func(x ast.Node) bool {
+				if _, isLit := x.(*ast.FuncLit); isLit {
+					return false
+				}
+				ce, ok := x.(*ast.CallExpr)
+				if !ok || hit {
+					return !hit
+				}
+				if f := core.Callee(info, ce); f != nil {
+					switch core.FullName(f) {
+					case "(time.Timer).Reset":
+						if sel, ok := ast.Unparen(ce.Fun).(*ast.SelectorExpr); ok && timerRuns[identObj(info, sel.X)] {
+							hit = true
+						}
+					case "time.AfterFunc":
+						if len(ce.Args) == 2 && reaches(ce.Args[1], 0) {
+							hit = true
+						}
+					}
+				}
+				if !hit && reaches(ce.Fun, 0) {
+					hit = true
+				}
+				// a local closure that does the re-arming
+				if id, ok := ast.Unparen(ce.Fun).(*ast.Ident); ok && !hit && depthS < 3 {
+					if fl := lits[identObj(info, id)]; fl != nil {
+						depthS++
+						hit = schedules(fl.Body)
+						depthS--
+					}
+				}
+				return !hit
+			})
+			return hit
+		}
+		ast.Inspect(d.Body, func(n ast.Node) bool {
+			sel, ok := n.(*ast.SelectStmt)
+			if !ok {
+				return true
+			}
+			for _, cl := range sel.Body.List {
+				cc := cl.(*ast.CommClause)
+				if cc.Comm == nil || !receivesFrom(info, cc.Comm, "github.com/fsnotify/fsnotify", "Watcher", "Events") {
+					continue
+				}
+				found++
+				key := c.FuncName(d) + "/event received"
+				fc := core.NewCFG(d.Body, info)
+				// go/cfg evaluates every comm statement in the block that dispatches the select; the clause body is a
+				// block of kind SelectCaseBody
+				head := fc.BlockOf(cc.Comm)
+				var start *cfg.Block
+				for _, b := range fc.G.Blocks {
+					if b.Kind == cfg.KindSelectCaseBody && b.Stmt == ast.Stmt(cc) {
+						start = b
+					}
+				}
+				if start == nil || head == nil {
+					c.Undecided(rule, key, cc.Pos(), "cannot locate the receive in the control-flow graph")
+					continue
+				}
+				heads := map[int32]bool{head.Index: true}
+				// forward search from the receive; a block (from the node after the receive on) that schedules ends the path
+				bad := false
+				seen := map[int32]bool{}
+				var walk func(b *cfg.Block, from int)
+				walk = func(b *cfg.Block, from int) {
+					for i := from; i < len(b.Nodes); i++ {
+						if schedules(b.Nodes[i]) {
+							return
+						}
+					}
+					for _, s := range b.Succs {
+						if heads[s.Index] {
+							bad = true
+							return
+						}
+						if !seen[s.Index] {
+							seen[s.Index] = true
+							walk(s, 0)
+						}
+					}
+				}
+				walk(start, 0)
+				c.Check(!bad, rule, key, cc.Pos(), "every path from the receive back to the select re-arms the regeneration timer (or the function returns)",
+					"an fsnotify event can be received without re-arming the regeneration: the edit that caused it is never generated and the files on disk stay stale")
+			}
+			return true
+		})
+		// the timer itself must run the regeneration
+		for o, runs := range timerRuns {
+			found++
+			c.Check(runs, rule, c.FuncName(d)+"/timer "+o.Name()+" runs the regeneration", o.Pos(), "the function given to time.AfterFunc reaches generateImpl",
+				"the debounce timer's function does not reach generateImpl: events are debounced into nothing")
+		}
+	}
+	if found == 0 {
+		c.Undecided(rule, "watcher loop", 0, "no select receiving from (*fsnotify.Watcher).Events found in internal/cmd")
+	}
+}
+
+// receivesFrom: the comm statement receives from the field <pkg>.<typ>.<field>.
+func receivesFrom(info *types.Info, comm ast.Stmt, pkg, typ, field string) bool {
+	hit := false
+	ast.Inspect(comm, func(n ast.Node) bool {
+		if ue, ok := n.(*ast.UnaryExpr); ok && ue.Op == token.ARROW {
+			if se, ok := ast.Unparen(ue.X).(*ast.SelectorExpr); ok && se.Sel.Name == field {
+				if s, ok := info.Selections[se]; ok {
+					if nt := core.NamedOf(s.Recv()); nt != nil && nt.Obj().Name() == typ && nt.Obj().Pkg() != nil && nt.Obj().Pkg().Path() == pkg {
+						hit = true
+					}
+				}
+			}
+		}
+		return !hit
+	})
+	return hit
+}
+
+// T6: a failed regeneration is only reported. Between the function the watcher schedules and
+// generateImpl (both excluded: generateImpl is the one-shot path too), no function terminates the
+// process (os.Exit, log.Fatal, zerolog Fatal/Panic chains, panic) and none sends generateImpl's error
+// to a channel — the watcher's completion channel ends the command.
+func ruleWatchSurvivesErrors(c *core.Ctx) {
+	const rule = "T6"
+	c.Rule(rule, "on the path from the scheduled regeneration to generateImpl no function terminates the process or forwards generateImpl's error to a channel: an invalid intermediate model state is reported and the watcher keeps running", 2)
+	gi, _, _ := c.Func("internal/cmd", "generateImpl")
+	if gi == nil {
+		c.Undecided(rule, "anchor/internal/cmd.generateImpl", 0, "anchor function not found")
+		return
+	}
+	n := 0
+	for _, d := range c.AllDecls() {
+		p := c.DeclPkg(d)
+		if p.PkgPath != core.Mod+"/internal/cmd" || d.Body == nil {
+			continue
+		}
+		info := p.TypesInfo
+		f, _ := info.Defs[d.Name].(*types.Func)
+		if f == nil || f == gi {
+			continue
+		}
+		// functions of the watch path: they (or a closure in them) are started by time.AfterFunc, or they are called
+		// from such a function and call generateImpl
+		onWatchPath := false
+		ast.Inspect(d.Body, func(x ast.Node) bool {
+			if ce, ok := x.(*ast.CallExpr); ok {
+				if cal := core.Callee(info, ce); cal != nil && core.FullName(cal) == "time.AfterFunc" {
+					onWatchPath = true
+				}
+			}
+			return true
+		})
+		if !onWatchPath {
+			direct := len(callsIn(info, d.Body, gi)) > 0
+			calledFromWatch := false
+			for _, o := range c.AllDecls() {
+				if c.DeclPkg(o) != p || o == d {
+					continue
+				}
+				usesTimer := false
+				ast.Inspect(o.Body, func(x ast.Node) bool {
+					if ce, ok := x.(*ast.CallExpr); ok {
+						if cal := core.Callee(info, ce); cal != nil && core.FullName(cal) == "time.AfterFunc" {
+							usesTimer = true
+						}
+					}
+					return true
+				})
+				if usesTimer && len(callsIn(info, o.Body, f)) > 0 {
+					calledFromWatch = true
+				}
+			}
+			onWatchPath = direct && calledFromWatch
+		}
+		if !onWatchPath {
+			continue
+		}
+		n++
+		key := c.FuncName(d) + "/no exit on a failed regeneration"
+		why := ""
+		var pos token.Pos = d.Pos()
+		// values that carry generateImpl's error: identifiers assigned from a call of generateImpl or of a function reaching it
+		carriers := map[types.Object]bool{}
+		ast.Inspect(d.Body, func(x ast.Node) bool {
+			if as, ok := x.(*ast.AssignStmt); ok && len(as.Rhs) == 1 {
+				if ce, ok := ast.Unparen(as.Rhs[0]).(*ast.CallExpr); ok {
+					if cal := core.Callee(info, ce); cal != nil && core.InModule(cal) && (cal.Origin() == gi || c.PathTo(cal.Origin(), func(g *types.Func) bool { return g == gi }, nil) != nil) {
+						for _, l := range as.Lhs {
+							if o := identObj(info, l); o != nil && core.IsErrorType(o.Type()) {
+								carriers[o] = true
+							}
+						}
+					}
+				}
+			}
+			return true
+		})
+		ast.Inspect(d.Body, func(x ast.Node) bool {
+			switch s := x.(type) {
+			case *ast.CallExpr:
+				if core.NoReturn(info, s) && why == "" {
+					why = "calls a process-terminating function (" + types.ExprString(s.Fun) + ")"
+					pos = s.Pos()
+				}
+			case *ast.SendStmt:
+				if id, ok := ast.Unparen(s.Value).(*ast.Ident); ok && carriers[info.Uses[id]] && why == "" {
+					why = "sends the error of the regeneration to a channel (" + types.ExprString(s.Chan) + ")"
+					pos = s.Pos()
+				}
+			}
+			return true
+		})
+		c.Check(why == "", rule, key, pos, "no process exit and no forwarding of the regeneration's error", why+": one invalid intermediate state of the model ends the watcher")
+	}
+	if n == 0 {
+		c.Undecided(rule, "watch path", 0, "no function between the timer and generateImpl found")
+	}
 }
